@@ -30,12 +30,26 @@ import (
 type c14Blocks struct {
 	cur     uint64
 	waiters []*c14Waiter
-	asked   []string // heights requested from the counter, in order
+	all     []*c14Waiter // every end-of-state waiter handed out, in order (k-th = state k)
+	asked   []string     // heights requested from the counter, in order
 }
 
 type c14Waiter struct {
-	h  uint64
-	ch chan uint64
+	h    uint64
+	ch   chan uint64
+	sent bool
+}
+
+// ended is the number of states whose end signal the machine has already taken out of
+// the waiter channel: from then on the machine itself knows the state is over.
+func (b *c14Blocks) ended() int {
+	n := 0
+	for _, w := range b.all {
+		if w.sent && len(w.ch) == 0 {
+			n++
+		}
+	}
+	return n
 }
 
 func (b *c14Blocks) WaitForBlockHeight(h uint64) error {
@@ -47,10 +61,13 @@ func (b *c14Blocks) WaitForBlockHeight(h uint64) error {
 func (b *c14Blocks) BlockHeightWaiter(h uint64) (<-chan uint64, error) {
 	b.asked = append(b.asked, fmt.Sprintf("waiter:%d", h))
 	ch := make(chan uint64, 1)
+	w := &c14Waiter{h: h, ch: ch}
+	b.all = append(b.all, w)
 	if h <= b.cur {
 		ch <- h
+		w.sent = true
 	} else {
-		b.waiters = append(b.waiters, &c14Waiter{h, ch})
+		b.waiters = append(b.waiters, w)
 	}
 	return ch, nil
 }
@@ -65,6 +82,7 @@ func (b *c14Blocks) mine() {
 	for _, w := range b.waiters {
 		if w.h <= b.cur {
 			w.ch <- w.h
+			w.sent = true
 		} else {
 			keep = append(keep, w)
 		}
@@ -110,6 +128,7 @@ type c14Msg struct {
 	tag   string
 	block uint64 // block height at delivery
 	live  int    // registrations live at delivery
+	ended int    // states whose end signal the machine had already consumed at delivery
 }
 
 func (m *c14Msg) TransportSenderID() net.TransportIdentifier { return nil }
@@ -193,7 +212,7 @@ func c14Body(sc c14Scenario, res *c14Result) func() {
 		})
 		vsched.GoLow("network", func() {
 			for i := 0; i < sc.Messages; i++ {
-				m := &c14Msg{tag: fmt.Sprintf("m%d", i), block: blocks.cur}
+				m := &c14Msg{tag: fmt.Sprintf("m%d", i), block: blocks.cur, ended: blocks.ended()}
 				m.live = ch.deliver(m)
 				res.delivered = append(res.delivered, m)
 				vsched.Yield()
@@ -287,6 +306,9 @@ func c14Evaluate(r *vrep.R, sc c14Scenario, bound int, s *vsched.Sched, res *c14
 	for _, m := range res.delivered {
 		if count[m.tag] > 1 {
 			fail("handed-twice", fmt.Sprintf("message %s (delivered in block %d) was handed to states %d times", m.tag, m.block, count[m.tag]))
+		}
+		if count[m.tag] == 1 && where[m.tag] < m.ended {
+			fail("handed-to-ended-state", fmt.Sprintf("message %s arrived (block %d) after the machine had taken the end signal of state %d, yet it was handed to state %d", m.tag, m.block, m.ended-1, where[m.tag]))
 		}
 		if m.live > 1 {
 			fail("double-registration", fmt.Sprintf("message %s met %d live registrations", m.tag, m.live))
